@@ -4,7 +4,8 @@ Specification: specs/sym/SymDim.tla (exact rational evaluator Eval, Partial, the
 precedence-climbing parser Meaning for the documented grammar) + SymDimMC.tla.  TLC
   1. checks the precedence/associativity lemmas on explicit strings (SymDimMC_shapes.cfg);
   2. enumerates EVERY expression tree of depth <= 2 over the operators ir.SymbolicDim overloads
-     (2 symbols, constants {1,2,3}; 406 125 trees) and, for the grammar, over + - * / // % ** unary -,
+     (2 symbols, constants {1,2,3}; 406 125 trees), over the rounding operators with negated leaves
+     (SymDimMC_signs.cfg; negative non-integer operands) and, for the grammar, over + - * / // % ** unary -,
      floor sqrt min max (SymDimMC_gram.cfg), checks RoundTripTree / DesugarOK / NormalForm / Integral on
      each of them under every binding in {1..4}^2 (RoundTripValue / PartialOK / ValueTable on the emitted
      ones in the quick tier, on all of them in the thorough tier) and prints a stratified sample
@@ -150,6 +151,16 @@ def run(ctx):
     n_enum_ops = res.distinct
     parts["tlc_ops"] = round(time.time() - t0, 1)
 
+    # the rounding operators with negated leaves (one symbol: negative non-integer operands at depth 2)
+    t0 = time.time()
+    cfg = _cfg(ctx.scratch, "SymDimMC_signs.cfg", "signs_v.cfg", PerClass=12 if thorough else 2, SampleRem=rem,
+               LightLemmas="FALSE" if thorough else "TRUE")
+    res = _tlc(ctx, MC, cfg, tag="signs", deadlock=False, timeout=3600 if thorough else 900)
+    _design_ok(res, "signs: ValueTable RoundTripTree DesugarOK RoundTripValue PartialOK NormalForm Integral")
+    envs1, strees = _records(res, "signs")
+    n_enum_signs = res.distinct
+    parts["tlc_signs"] = round(time.time() - t0, 1)
+
     t0 = time.time()
     cfg = _cfg(ctx.scratch, "SymDimMC_gram.cfg", "gram_v.cfg", PerClass=20 if thorough else 2, SampleRem=rem,
                LightLemmas="FALSE" if thorough else "TRUE")
@@ -183,7 +194,7 @@ def run(ctx):
     # ---- (4) replay into the real library ---------------------------------------------------------------------
     t0 = time.time()
     nid = 0
-    for group in (trees, gtrees, rtrees, shapes):
+    for group in (trees, strees, gtrees, rtrees, shapes):
         for r in group:
             r["id"] = nid
             nid += 1
@@ -191,6 +202,7 @@ def run(ctx):
     tasks = []
     tasks += _chunks(trees + rtrees, envs2, NCPU * 6, ctx.seed, operators=True, grammar=True, opts=opts,
                      all_styles=thorough)
+    tasks += _chunks(strees, envs1, NCPU * 2, ctx.seed + 3, operators=True, grammar=True, opts=opts, all_styles=thorough)
     tasks += _chunks(gtrees, envs2, NCPU * 2, ctx.seed + 1, operators=False, grammar=True, all_styles=thorough)
     tasks += _chunks(shapes, envs3, 4, ctx.seed + 2, operators=False, grammar=True)
     # long chunks first
@@ -207,12 +219,14 @@ def run(ctx):
     missing = [k for k in need if not agg["stats"].get(k)]
     if missing:
         raise MachineryError(f"operator/operand-kind combinations never executed: {missing}")
-    if n_trees != len(trees) + len(rtrees):
-        raise MachineryError(f"replayed {n_trees} trees, TLC printed {len(trees) + len(rtrees)}")
+    if n_trees != len(trees) + len(rtrees) + len(strees):
+        raise MachineryError(f"replayed {n_trees} trees, TLC printed {len(trees) + len(rtrees) + len(strees)}")
 
     # ---- (5) code -> specification: Meaning of the strings the library printed ----------------------------------
     t0 = time.time()
     by_id = {r["id"]: r for r in trees + rtrees}
+    for r in strees:   # one-symbol value tables, spread over the two-symbol binding table of the text run
+        by_id[r["id"]] = dict(r, vals=[r["vals"][envs1.index({k: e[k] for k in envs1[0]})] for e in envs2])
     texts: dict = {}
     unlexable = bignum = 0
     for p in agg["printed"]:
@@ -264,6 +278,8 @@ def run(ctx):
         if d["failure"]["check"] in ("reparse", "serde") and tx in texts and "spec" in texts[tx]:
             g = texts[tx]["spec"]
             vals = d["case"]["vals"]
+            if len(vals) != len(g["mvals"]) and g["ok"]:
+                vals = [vals[envs1.index({k: e[k] for k in envs1[0]})] for e in envs2]
             if not g["ok"]:
                 d["printed_string_under_standard_grammar"] = "not a string of the documented grammar"
             elif all(q[1] == 0 or q == m for q, m in zip(vals, g["mvals"])):
@@ -299,8 +315,8 @@ def run(ctx):
                        depth_enumerated=2, depth_random=3 if thorough else None,
                        per_class_ops=40 if thorough else 2, per_class_grammar=20 if thorough else 2,
                        sample_rem=rem, shape_strings=len(shapes), shape_symbols=["N", "M", "K"]),
-        trees_enumerated_by_tlc=dict(operators=n_enum_ops, grammar=n_enum_gram),
-        trees_replayed=dict(operators=len(trees), grammar=len(gtrees), random_depth3=len(rtrees)),
+        trees_enumerated_by_tlc=dict(operators=n_enum_ops, signs=n_enum_signs, grammar=n_enum_gram),
+        trees_replayed=dict(operators=len(trees), signs=len(strees), grammar=len(gtrees), random_depth3=len(rtrees)),
         texts_parsed_by_real_parser=agg.get("texts", 0),
         evaluations_by_kind=dict(operator_part=agg.get("evals", 0), grammar_part=agg.get("text_evals", 0)),
         bindings_skipped_undefined=agg.get("skipped_undef", 0),
